@@ -52,6 +52,8 @@ impl PkeSealingVersion for V3 {
         ek.update(epk);
         ek.update(pk.as_bytes());
         let (ek, n) = ek.finalize().split();
+        #[cfg(paseto_rs_verif)]
+        let n = crate::verif_hooks::iv(n);
 
         let mut ak = sha2::Sha384::new();
         ak.update(b"\x02k3.seal.");
@@ -129,6 +131,8 @@ impl PkeUnsealingVersion for V3 {
         ek.update(epk);
         ek.update(pk.as_bytes());
         let (ek, n) = ek.finalize().split();
+        #[cfg(paseto_rs_verif)]
+        let n = crate::verif_hooks::iv(n);
 
         ctr::Ctr64BE::<aes::Aes256>::new(&ek, &n).apply_keystream(edk);
 
